@@ -17,12 +17,12 @@ def tokOne : Tok := Tok.synth "1" .value
 def tokPlus : Tok := Tok.synth "+" .operator
 def tokMinus : Tok := Tok.synth "-" .operator
 
-/-- `sanitize_tokens`: a token whose text is "." becomes an operator; python tokens are normalised.
+/-- `sanitize_tokens`: an unquoted token whose text is "." becomes an operator; python tokens are normalised.
 `norm` is a parameter (CPython's `ast`), supplied per case by the harness. -/
 def sanitizeTokens (norm : List Char → Except PyErr (List Char)) : List Tok → Except PyErr (List Tok)
   | [] => .ok []
   | t :: ts =>
-    let t1 : Tok := if t.text == ['.'] then { t with kind := some .operator } else t
+    let t1 : Tok := if t.text == ['.'] && t.kind != some .name then { t with kind := some .operator } else t
     match (if t1.kind == some .python then (norm t1.text).map (fun x => { t1 with text := x }) else .ok t1) with
     | .error e => .error e
     | .ok t2 =>
